@@ -9,6 +9,9 @@
 (*             top = merge(l1,l2), all run                                 *)
 (*   "synt"    b1 b2, l1 = synt(b1,b2; X1=X1) run, l2 = merge(l1,b1) run   *)
 (*   "stale"   chain, then b3 changed and announced, l2's source read-only *)
+(*   "lchain"  labelled base sets; l2 = synt(l1, b3) equates a base set of *)
+(*             l1 that comes from l1's second operand with b3's            *)
+(*   "ldiamond" labelled diamond (copies arriving twice are merged)        *)
 (* The preset itself is a history (prefix) built with the same actions.    *)
 (* Structure and Fresh (C19 on the model) are TLC invariants.              *)
 (* Text edits are offered only where no constituent reaches an operation   *)
@@ -35,11 +38,17 @@ Prefix ==
                                IF_(4, "merge", -1), IF_(5, "merge", -1), IF_(6, "merge", -1), EX(4), EX(5), EX(6)>>
     \* "stale": the chain with b3 changed and announced (l2 outdated) and l2's result source read-only
     [] Preset = "stale" -> ChainPrefix \o <<[Op("Edit") EXCEPT !.p = 3, !.kind = "addBase"], [Op("Save") EXCEPT !.p = 3], [Op("Lock") EXCEPT !.p = 5]>>
+    \* labelled base sets: l2 equates the LAST base set of l1 (it comes from b2, so its identifier is re-issued at every execution) with b3's
+    [] Preset = "lchain" -> <<IB(1), IB(2), IB(3), CN(1, 101, 2), CN(2, 102, 2), CN(3, 103, 1), IO(4, 1, 2), IO(5, 4, 3),
+                              IF_(4, "merge", -1), EX(4), IF_(5, "synt", 2), EX(5)>>
+    [] Preset = "ldiamond" -> <<IB(1), IB(2), IB(3), CN(1, 101, 1), CN(2, 102, 2), CN(3, 103, 1), IO(4, 1, 2), IO(5, 2, 3), IO(6, 4, 5),
+                                IF_(4, "merge", -1), IF_(5, "merge", -1), IF_(6, "merge", -1), EX(4), EX(5), EX(6)>>
     [] Preset = "synt" -> <<IB(1), IB(2), CN(1, 101, 2), CN(2, 102, 1), IO(3, 1, 2), IF_(3, "synt", 1), EX(3), IO(4, 3, 1), IF_(4, "merge", -1), EX(4)>>
-PrefixPicts == CASE Preset = "grid" -> 0 [] Preset = "stale" -> 5 [] Preset = "empty" -> 0 [] Preset = "chain" -> 5 [] Preset = "diamond" -> 6 [] Preset = "synt" -> 4
-PrefixSrcs == CASE Preset = "grid" -> 100 [] Preset = "stale" -> 103 [] Preset = "empty" -> 100 [] Preset = "chain" -> 103 [] Preset = "diamond" -> 103 [] Preset = "synt" -> 102
+PrefixPicts == CASE Preset = "lchain" -> 5 [] Preset = "ldiamond" -> 6 [] Preset = "grid" -> 0 [] Preset = "stale" -> 5 [] Preset = "empty" -> 0 [] Preset = "chain" -> 5 [] Preset = "diamond" -> 6 [] Preset = "synt" -> 4
+PrefixSrcs == CASE Preset = "lchain" -> 103 [] Preset = "ldiamond" -> 103 [] Preset = "grid" -> 100 [] Preset = "stale" -> 103 [] Preset = "empty" -> 100 [] Preset = "chain" -> 103 [] Preset = "diamond" -> 103 [] Preset = "synt" -> 102
 
-Init == oss = ApplyAll(EmptyOSS, Prefix, 1) /\ hist = <<>> /\ nextPict = PrefixPicts + 1 /\ nextSrc = PrefixSrcs + 1
+IsLabelled == Preset \in {"lchain", "ldiamond"}
+Init == oss = ApplyAll(IF IsLabelled THEN EmptyLabelled ELSE EmptyOSS, Prefix, 1) /\ hist = <<>> /\ nextPict = PrefixPicts + 1 /\ nextSrc = PrefixSrcs + 1
 Step(c) == oss' = Apply(oss, c) /\ hist' = Append(hist, c)
 BothBases(p) == oss.par[oss.par[p][1]] = <<>> /\ oss.par[oss.par[p][2]] = <<>>
 Structural == Preset \in {"empty", "grid"}
@@ -57,12 +66,12 @@ Next ==
         /\ UNCHANGED <<nextPict, nextSrc>>
      \/ /\ ~GridOnly /\ \E p \in {x \in Picts(oss) : ~IsOp(oss, x)}, n0 \in (IF Structural THEN {1} ELSE {1, 2}) : Step(CN(p, nextSrc, n0))
         /\ nextSrc' = nextSrc + 1 /\ UNCHANGED nextPict
-     \/ /\ \E p \in Picts(oss), k \in {"addBase", "removeBase", "text", "userTerm"} :
+     \/ /\ \E p \in Picts(oss), k \in {"addBase", "removeBase", "removeFirst", "text", "userTerm"} : (k = "removeFirst" => IsLabelled) /\
              ~GridOnly /\ CanEdit(oss, p, k) /\ (k = "text" => Preset \in {"empty", "chain"} /\ (Structural \/ p \in {1, 4})) /\ Step([Op("Edit") EXCEPT !.p = p, !.kind = k])
         /\ UNCHANGED <<nextPict, nextSrc>>
      \/ /\ \E p \in Picts(oss) : ~GridOnly /\ oss.hand[p].linked /\ Step([Op("Save") EXCEPT !.p = p]) /\ UNCHANGED <<nextPict, nextSrc>>
-     \/ /\ \E p \in DOMAIN oss.oper, t \in {<<"merge", -1>>, <<"synt", 0>>, <<"synt", 1>>, <<"synt", -1>>, <<"merge", 0>>} :
-             ~GridOnly /\ (t[2] = 1 => BothBases(p)) /\ (t \in {<<"synt", -1>>, <<"merge", 0>>} => Structural) /\ Step(IF_(p, t[1], t[2]))
+     \/ /\ \E p \in DOMAIN oss.oper, t \in {<<"merge", -1>>, <<"synt", 0>>, <<"synt", 1>>, <<"synt", 2>>, <<"synt", -1>>, <<"merge", 0>>} :
+             ~GridOnly /\ (t[2] = 1 => (BothBases(p) \/ IsLabelled)) /\ (t[2] = 2 => IsLabelled) /\ (t \in {<<"synt", -1>>, <<"merge", 0>>} => Structural) /\ Step(IF_(p, t[1], t[2]))
         /\ UNCHANGED <<nextPict, nextSrc>>
      \/ /\ \E p \in DOMAIN oss.oper : HasData(oss, p) /\ ~DataOf(oss, p).locked /\ Preset \in {"chain", "stale"}
              /\ Step([Op("Lock") EXCEPT !.p = p]) /\ UNCHANGED <<nextPict, nextSrc>>
@@ -74,7 +83,7 @@ Next ==
 Spec == Init /\ [][Next]_vars
 
 \* ---- what is emitted: the calls (prefix and history) and the predicted state after the last call and after a final SaveAll
-Emit == PrintT(<<"CASE", ToJson([prefix |-> Prefix, hist |-> hist, now |-> View(oss), saved |-> View(SaveAll(oss))])>>)
+Emit == PrintT(<<"CASE", ToJson([labelled |-> IsLabelled, prefix |-> Prefix, hist |-> hist, now |-> View(oss), saved |-> View(SaveAll(oss))])>>)
 
 StructureInv == Structure(oss)
 FreshInv == Fresh(oss) /\ Fresh(SaveAll(oss))
